@@ -6,6 +6,16 @@
 //   delta <enc> <dist> <hex> <len,len,...|->                       -> "<hex>"
 //   dstream <enc> <next> <dist> <hex> <in:out:act,...>             -> like stream
 //   deltax <enc> <dist> <hex>                                      -> "<hex>"
+// Handle reuse (the model answers them exactly like the fresh-handle ops: its init never depends on earlier use):
+//   rstream / rdstream ...                         -> like stream / dstream, but on ONE persistent next-coder object that is re-initialised
+//                                                     in place (no end) when the previous case used the same init function
+//   chain <reuse> <fid|delta> <enc> <param> <hex>  -> public API: lzma_raw_encoder / lzma_raw_decoder with {filter, LZMA2}; reuse=1 uses a
+//                                                     persistent lzma_stream that is never lzma_end()ed between cases. enc=1 prints the bytes
+//                                                     after the filter (LZMA2 layer undone by a fresh decoder); enc=0 filters <hex> backwards.
+//                                                     "init=0 out=<hex>" | "init=<ret>"
+//   mblock <reuse> <fid|delta> <param> <hex> <cut,..> -> lzma_stream_encoder, LZMA_FULL_FLUSH at every cut (one Block per piece), LZMA_FINISH;
+//                                                     "rt=<1|0> blocks=<filtered bytes of block 1>,<block 2>,..." (fresh stream decoder for rt)
+//   dirty <fid|delta> <enc> <param> <hex>          -> leaves both persistent objects in the middle of a stream over <hex>; prints "ok"
 // C only (property oracles evaluated on the implementation itself):
 //   rt <fid> <next> <start_offset> <seed> <hex>    -> "1" iff sliced encode == single-call encode, and sliced decode of it == input
 //   drt <next> <dist> <seed> <hex>                 -> same for delta
@@ -45,10 +55,12 @@ typedef struct {
 	lzma_filter_info f[2];
 } coder_t;
 
-static lzma_ret coder_init(coder_t *c, int fid, bool enc, int nextmode, uint32_t param)
+static lzma_ret coder_setup(coder_t *c, int fid, bool enc, int nextmode, uint32_t param, bool fresh)
 {
-	memset(c, 0, sizeof(*c));
-	c->next = (lzma_next_coder)LZMA_NEXT_CODER_INIT;
+	if (fresh) {
+		memset(c, 0, sizeof(*c));
+		c->next = (lzma_next_coder)LZMA_NEXT_CODER_INIT;
+	}
 	c->f[1].id = LZMA_VLI_UNKNOWN;
 	c->f[1].init = nextmode ? &pt_init : NULL;
 	c->f[1].options = NULL;
@@ -68,6 +80,11 @@ static lzma_ret coder_init(coder_t *c, int fid, bool enc, int nextmode, uint32_t
 	// lzma_next_end() only acts when next.init is set; we called the init function directly.
 	c->next.init = (uintptr_t)&pt_init;
 	return r;
+}
+
+static lzma_ret coder_init(coder_t *c, int fid, bool enc, int nextmode, uint32_t param)
+{
+	return coder_setup(c, fid, enc, nextmode, param, true);
 }
 
 static void coder_end(coder_t *c) { lzma_next_end(&c->next, NULL); }
@@ -102,6 +119,203 @@ static lzma_ret call_once(coder_t *c, const uint8_t *in, size_t in_len, size_t o
 	free(ibuf);
 	free(obuf);
 	return r;
+}
+
+// ---- persistent objects (handle reuse) ----
+// One next-coder object: re-initialised in place when the same init function is used again (this is what lzma_next_coder_init()
+// does inside liblzma: it ends the old coder only if the init function differs).
+static coder_t g_coder;
+static bool g_coder_live = false;
+static int g_coder_key = -1;
+
+static lzma_ret persistent_init(int fid, bool enc, int nextmode, uint32_t param)
+{
+	const int key = (fid + 1) * 2 + (enc ? 1 : 0);
+	if (g_coder_live && g_coder_key != key) {
+		coder_end(&g_coder);
+		g_coder_live = false;
+	}
+	const lzma_ret r = coder_setup(&g_coder, fid, enc, nextmode, param, !g_coder_live);
+	g_coder_live = true;
+	g_coder_key = key;
+	return r;
+}
+
+// One lzma_stream for the public API, never lzma_end()ed between cases.
+static lzma_stream g_strm = LZMA_STREAM_INIT;
+
+typedef struct { lzma_options_bcj bcj; lzma_options_delta delta; lzma_options_lzma lzma2; lzma_filter f[3]; } chain_t;
+
+// name: a BCJ filter name or "delta"; with_filter = false gives the plain {LZMA2} chain
+static bool chain_make(chain_t *ch, const char *name, uint32_t param, bool with_filter)
+{
+	memset(ch, 0, sizeof(*ch));
+	if (lzma_lzma_preset(&ch->lzma2, 0)) abort();
+	int n = 0;
+	if (with_filter) {
+		if (!strcmp(name, "delta")) {
+			ch->delta.type = LZMA_DELTA_TYPE_BYTE;
+			ch->delta.dist = param;
+			ch->f[0].id = LZMA_FILTER_DELTA;
+			ch->f[0].options = &ch->delta;
+		} else {
+			const int fid = fid_of(name);
+			if (fid < 0) return false;
+			ch->bcj.start_offset = param;
+			ch->f[0].id = h15_ids[fid];
+			ch->f[0].options = &ch->bcj;
+		}
+		n = 1;
+	}
+	ch->f[n].id = LZMA_FILTER_LZMA2;
+	ch->f[n].options = &ch->lzma2;
+	ch->f[n + 1].id = LZMA_VLI_UNKNOWN;
+	return true;
+}
+
+// Runs an initialised lzma_stream over data: the first half with LZMA_RUN in small pieces, the rest with `last`. Output appended to acc.
+static lzma_ret strm_run(lzma_stream *strm, const uint8_t *data, size_t n, lzma_action last, bytes_t *acc)
+{
+	uint8_t obuf[4096];
+	size_t fed = 0;
+	lzma_ret r = LZMA_OK;
+	const size_t half = n / 2;
+	for (int guard = 0; guard < 1000000; ++guard) {
+		const bool second = fed >= half;
+		const size_t piece = second ? n - fed : (half - fed < 97 ? half - fed : 97);
+		strm->next_in = data + fed;
+		strm->avail_in = piece;
+		strm->next_out = obuf;
+		strm->avail_out = sizeof(obuf);
+		r = lzma_code(strm, second ? last : LZMA_RUN);
+		fed += piece - strm->avail_in;
+		bytes_add(acc, obuf, sizeof(obuf) - strm->avail_out);
+		if (r != LZMA_OK) return r;
+		if (second && last == LZMA_RUN && fed == n && strm->avail_out != 0) return LZMA_OK;
+	}
+	return LZMA_PROG_ERROR;
+}
+
+// filter direction `enc` over data through the public raw API; returns the init code, output in acc
+static lzma_ret chain_run(bool reuse, const char *name, bool enc, uint32_t param, const uint8_t *data, size_t n, bytes_t *out, bool *ok)
+{
+	chain_t with, plain;
+	*ok = false;
+	if (!chain_make(&with, name, param, true) || !chain_make(&plain, name, 0, false)) return LZMA_PROG_ERROR;
+	lzma_stream local = LZMA_STREAM_INIT, other = LZMA_STREAM_INIT;
+	lzma_stream *strm = reuse ? &g_strm : &local;
+	bytes_t mid = {0};
+	lzma_ret ri;
+	if (enc) {
+		ri = lzma_raw_encoder(strm, with.f);
+		if (ri == LZMA_OK && strm_run(strm, data, n, LZMA_FINISH, &mid) == LZMA_STREAM_END
+				&& lzma_raw_decoder(&other, plain.f) == LZMA_OK
+				&& strm_run(&other, mid.p, mid.n, LZMA_FINISH, out) == LZMA_STREAM_END)
+			*ok = true;
+	} else {
+		ri = lzma_raw_decoder(strm, with.f);
+		if (ri == LZMA_OK && lzma_raw_encoder(&other, plain.f) == LZMA_OK
+				&& strm_run(&other, data, n, LZMA_FINISH, &mid) == LZMA_STREAM_END
+				&& strm_run(strm, mid.p, mid.n, LZMA_FINISH, out) == LZMA_STREAM_END)
+			*ok = true;
+	}
+	free(mid.p);
+	lzma_end(&other);
+	if (!reuse) lzma_end(&local);
+	return ri;
+}
+
+// mblock: one Block per piece through lzma_stream_encoder; prints rt and the per-Block bytes after the filter.
+static void mblock(bool reuse, const char *name, uint32_t param, const uint8_t *data, size_t n, const char *cuts)
+{
+	chain_t with;
+	if (!chain_make(&with, name, param, true)) { printf("bad-op\n"); return; }
+	lzma_stream local = LZMA_STREAM_INIT;
+	lzma_stream *strm = reuse ? &g_strm : &local;
+	bytes_t xz = {0};
+	const lzma_ret ri = lzma_stream_encoder(strm, with.f, LZMA_CHECK_CRC32);
+	if (ri != LZMA_OK) { printf("init=%d\n", (int)ri); if (!reuse) lzma_end(&local); return; }
+	size_t start = 0;
+	bool fail = false;
+	for (const char *s = cuts; !fail;) {
+		size_t end = n;
+		bool last = true;
+		if (*s && *s != '-') {
+			char *e; const size_t v = (size_t)strtoull(s, &e, 10);
+			s = *e == ',' ? e + 1 : e;
+			if (v < n) { end = v < start ? start : v; last = false; }
+		}
+		uint8_t obuf[4096];
+		strm->next_in = data + start;
+		strm->avail_in = end - start;
+		for (int guard = 0; guard < 1000000; ++guard) {
+			strm->next_out = obuf;
+			strm->avail_out = sizeof(obuf);
+			const lzma_ret r = lzma_code(strm, last ? LZMA_FINISH : LZMA_FULL_FLUSH);
+			bytes_add(&xz, obuf, sizeof(obuf) - strm->avail_out);
+			if (r == LZMA_STREAM_END) break;
+			if (r != LZMA_OK) { fail = true; break; }
+		}
+		start = end;
+		if (last) break;
+	}
+	if (!reuse) lzma_end(&local);
+	// round trip with a fresh decoder
+	bool rt = false;
+	if (!fail) {
+		uint8_t *dec = malloc(n + 16);
+		uint64_t memlimit = UINT64_MAX;
+		size_t ip = 0, op = 0;
+		if (lzma_stream_buffer_decode(&memlimit, 0, NULL, xz.p, &ip, xz.n, dec, &op, n + 16) == LZMA_OK && op == n && (n == 0 || !memcmp(dec, data, n)))
+			rt = true;
+		free(dec);
+	}
+	printf("rt=%d blocks=", rt ? 1 : 0);
+	// walk the Blocks: undo only the LZMA2 layer of each
+	size_t pos = 12;
+	bool first = true;
+	while (!fail && pos < xz.n && xz.p[pos] != 0x00) {
+		lzma_filter filters[LZMA_FILTERS_MAX + 1];
+		lzma_block block;
+		memset(&block, 0, sizeof(block));
+		block.version = 1;
+		block.check = LZMA_CHECK_CRC32;
+		block.filters = filters;
+		block.header_size = lzma_block_header_size_decode(xz.p[pos]);
+		if (pos + block.header_size > xz.n || lzma_block_header_decode(&block, NULL, xz.p + pos) != LZMA_OK) { printf("!bad-block-header"); break; }
+		pos += block.header_size;
+		int nf = 0;
+		while (filters[nf].id != LZMA_VLI_UNKNOWN) ++nf;
+		lzma_filter lastf[2] = { filters[nf - 1], { .id = LZMA_VLI_UNKNOWN } };
+		lzma_stream d = LZMA_STREAM_INIT;
+		bytes_t f = {0};
+		uint8_t obuf[4096];
+		bool okd = lzma_raw_decoder(&d, lastf) == LZMA_OK;
+		d.next_in = xz.p + pos;
+		d.avail_in = xz.n - pos;
+		while (okd) {
+			d.next_out = obuf;
+			d.avail_out = sizeof(obuf);
+			const lzma_ret r = lzma_code(&d, LZMA_RUN);
+			bytes_add(&f, obuf, sizeof(obuf) - d.avail_out);
+			if (r == LZMA_STREAM_END) break;
+			if (r != LZMA_OK) okd = false;
+		}
+		const size_t used = (size_t)d.total_in;
+		lzma_end(&d);
+		lzma_filters_free(filters, NULL);
+		if (!okd) { printf("!bad-block-data"); free(f.p); break; }
+		printf("%s", first ? "" : ",");
+		hp_put_hex(f.p, f.n);
+		first = false;
+		free(f.p);
+		pos += used;
+		pos = (pos + 3) & ~(size_t)3;
+		pos += 4;       // CRC32 of the Block
+	}
+	if (first) printf("-");
+	printf("\n");
+	free(xz.p);
 }
 
 // Explicit slices, then up to `drain` draining calls (all remaining input, 4096 output, LZMA_FINISH) while there is progress.
@@ -289,24 +503,56 @@ int main(void)
 				printf("none\n");
 			}
 			free(p);
-		} else if ((!strcmp(op, "stream") && l.ntok == 7) || (!strcmp(op, "dstream") && l.ntok == 6)) {
-			const bool bcj = op[0] == 's';
+		} else if (((!strcmp(op, "stream") || !strcmp(op, "rstream")) && l.ntok == 7)
+				|| ((!strcmp(op, "dstream") || !strcmp(op, "rdstream")) && l.ntok == 6)) {
+			const bool reuse = op[0] == 'r';
+			const bool bcj = op[reuse ? 1 : 0] == 's';
 			const int fid = bcj ? fid_of(l.tok[1]) : -1;
 			if (bcj && fid < 0) { printf("bad-op\n"); continue; }
 			const char **t = (const char **)l.tok + (bcj ? 2 : 1);   // enc next param hex slices
 			size_t n; uint8_t *p = hp_hex(t[3], &n);
 			coder_t c;
 			bytes_t acc = {0};
-			const lzma_ret ri = coder_init(&c, fid, t[0][0] == '1', t[1][0] == '1', (uint32_t)hp_u64(t[2]));
+			const lzma_ret ri = reuse ? persistent_init(fid, t[0][0] == '1', t[1][0] == '1', (uint32_t)hp_u64(t[2]))
+					: coder_init(&c, fid, t[0][0] == '1', t[1][0] == '1', (uint32_t)hp_u64(t[2]));
 			printf("init=%d", (int)ri);
 			if (ri == LZMA_OK) {
 				printf(" calls=");
-				run_slices(&c, p, n, t[4], 8, true, &acc);
+				run_slices(reuse ? &g_coder : &c, p, n, t[4], 8, true, &acc);
 				printf(" out="); hp_put_hex(acc.p, acc.n);
 			}
 			printf("\n");
-			coder_end(&c);
+			if (!reuse) coder_end(&c);
 			free(acc.p); free(p);
+		} else if (!strcmp(op, "chain") && l.ntok == 6) {
+			size_t n; uint8_t *p = hp_hex(l.tok[5], &n);
+			bytes_t out = {0};
+			bool ok;
+			const lzma_ret ri = chain_run(l.tok[1][0] == '1', l.tok[2], l.tok[3][0] == '1', (uint32_t)hp_u64(l.tok[4]), p, n, &out, &ok);
+			if (ri != LZMA_OK) printf("init=%d\n", (int)ri);
+			else if (!ok) printf("init=0 failed\n");
+			else { printf("init=0 out="); hp_put_hex(out.p, out.n); printf("\n"); }
+			free(out.p); free(p);
+		} else if (!strcmp(op, "mblock") && l.ntok == 6) {
+			size_t n; uint8_t *p = hp_hex(l.tok[4], &n);
+			mblock(l.tok[1][0] == '1', l.tok[2], (uint32_t)hp_u64(l.tok[3]), p, n, l.tok[5]);
+			free(p);
+		} else if (!strcmp(op, "dirty") && l.ntok == 5) {
+			size_t n; uint8_t *p = hp_hex(l.tok[4], &n);
+			const bool enc = l.tok[2][0] == '1';
+			const uint32_t param = (uint32_t)hp_u64(l.tok[3]);
+			const int fid = strcmp(l.tok[1], "delta") ? fid_of(l.tok[1]) : -1;
+			chain_t with;
+			bytes_t junk = {0};
+			if (chain_make(&with, l.tok[1], param, true)
+					&& (enc ? lzma_raw_encoder(&g_strm, with.f) : lzma_raw_decoder(&g_strm, with.f)) == LZMA_OK)
+				strm_run(&g_strm, p, n, LZMA_RUN, &junk);        // abandoned mid-stream (a decoder fed raw bytes may also end in an error)
+			if (persistent_init(fid, enc, 1, param) == LZMA_OK) {
+				size_t cons, prod;
+				call_once(&g_coder, p, n, n, LZMA_RUN, &cons, &prod, &junk);
+			}
+			free(junk.p); free(p);
+			printf("ok\n");
 		} else if (!strcmp(op, "delta") && l.ntok == 5) {
 			const bool enc = l.tok[1][0] == '1';
 			size_t n; uint8_t *p = hp_hex(l.tok[3], &n);
@@ -356,6 +602,8 @@ int main(void)
 			printf("bad-op\n");
 		}
 	}
+	if (g_coder_live) coder_end(&g_coder);
+	lzma_end(&g_strm);
 	hp_done(&l);
 	return 0;
 }
